@@ -39,6 +39,8 @@ var c06refs = []c06ref{
 	{"svc-second-arg-of-first-call-svc", "service", `"svcMulti"`, "uFifteen", "goneFifteen"},
 	{"svc-third-arg-of-second-call-param", "param", `"@svcMulti"`, "tSixteen", "nopeSixteen"},
 	{"svc-last-field-svc", "service", `"svcMulti"`, "uSeventeen", "goneSeventeen"},
+	{"param-inside-quotes", "param", `"%pQuoted%"`, "tEighteen", "nopeEighteen"},
+	{"svc-arg-inside-quotes", "param", `"@svcQuoted"`, "tNineteen", "nopeNineteen"},
 }
 
 // c06missing: the undeclared name used at position i. Variant 4: the name is declared, but in the other
@@ -93,6 +95,7 @@ func c06build(dangling uint, variant int) *Cfg {
 		Param{"pMulti", "a-%" + name(1) + "%-b"},
 		Param{"pAfterPct", "%%%" + name(2) + "%"},
 		Param{"pAfterFn", `%env("C06_HOST", "localhost")%:%` + name(12) + "%"},
+		Param{"pQuoted", `--title="%` + name(17) + `%" --x='y'`},
 	)
 	c.Services = append(c.Services,
 		// `todo: false` is a spelling of "not todo": the referrer is checked like any other
@@ -108,6 +111,7 @@ func c06build(dangling uint, variant int) *Cfg {
 		Service{Name: "svcMulti", Constructor: P("NewThing"), Args: []any{"x"},
 			Calls:  []Call{{Method: "First", Args: []any{"a", "@" + name(14), "b"}}, {Method: "Second", Args: []any{1, 2, "%" + name(15) + "%"}}, {Method: "Third", Args: []any{"z"}}},
 			Fields: []KV{{"Fa", "plain"}, {"Fz", "@" + name(16)}}},
+		Service{Name: "svcQuoted", Constructor: P("NewThing"), Args: []any{`say "hi" then password="%` + name(18) + `%"`}},
 		Service{Name: "carrier", Constructor: P("NewThing"), Tags: []Tag{{Name: "tagA"}, {Name: "tagB"}}},
 	)
 	c.Decorators = []Decorator{
@@ -121,7 +125,7 @@ func init() {
 	Register(&Check{
 		ID:    "C06",
 		Level: "exploration",
-		Rule: "every subset of the 17 reference positions (param->param single chunk / multi-chunk / after %%; service ctor, call, field, wither multi-chunk -> param; a reference after a function chunk in a parameter and in a service argument; non-first arguments of several calls followed by fields; decorator -> param; service ctor, call, field -> service; decorator -> service) made dangling, x 5 variants (targets declared as literal / %todo()% + todo:true / %todo(\"msg\")% / null-valued parameters + value services; undeclared names that are declared in the other namespace); " +
+		Rule: "every subset of the 19 reference positions (references inside quotation marks in a parameter and in a service argument; param->param single chunk / multi-chunk / after %%; service ctor, call, field, wither multi-chunk -> param; a reference after a function chunk in a parameter and in a service argument; non-first arguments of several calls followed by fields; decorator -> param; service ctor, call, field -> service; decorator -> service) made dangling, x 5 variants (targets declared as literal / %todo()% + todo:true / %todo(\"msg\")% / null-valued parameters + value services; undeclared names that are declared in the other namespace); " +
 			"non-trivial = at least one reference dangling; distinct = distinct (subset, variant)",
 		Assumptions: []string{
 			"diagnostics are matched by content: rule prefix (output.ValidateParamsExist / output.ValidateServicesExist), the referrer token and the quoted missing name; multiplicity is not compared",
@@ -204,6 +208,14 @@ func init() {
 				outs, err := w.RunBehaviour([]*BCase{{ID: c.ID, Cfg: cfg, Sessions: []BSession{{Ops: ops}}}})
 				behaviourOracle(c, outs, err)
 			})
+			// the same references, dangling or not, however the YAML presents them (aliased argument lists, merge keys ...)
+			for _, set := range []uint{0, 0x1, 0x80, 0x4a5, 0x1ffff} {
+				set := set
+				w.Case(fmt.Sprintf("yaml-presentation/set=%x", set), func(c *C) {
+					c.Distinct("all", c.ID)
+					w.ShapeInvarianceOK(c, c.ID, []File{{"c.yaml", c06build(set, 0).YAML()}}, set == 0)
+				})
+			}
 			for _, variant := range []int{0, 1, 2, 4, 5} {
 				for set := uint(0); set < 1<<uint(n); set++ {
 					if w.Env.Quick() {
